@@ -4,8 +4,10 @@ import (
 	"encoding/binary"
 	"fmt"
 	"io"
+	"net"
 	"strconv"
 	"strings"
+	"sync"
 	"time"
 
 	plugin "github.com/hashicorp/go-plugin"
@@ -21,6 +23,7 @@ import (
 type muxPair struct {
 	hs, ps *yamux.Session
 	hb, pb *plugin.MuxBroker
+	raw    *rawMuxPeer // a hand-written peer in place of one of the brokers
 }
 
 func yamuxCfg() *yamux.Config {
@@ -29,7 +32,10 @@ func yamuxCfg() *yamux.Config {
 	return c
 }
 
-func newMuxPair(x *vs.Exec) *muxPair {
+func newMuxPair(x *vs.Exec) *muxPair { return newMuxPairRaw(x, 0) }
+
+// newMuxPairRaw: rawSide 'h' or 'p' makes that end a hand-written peer (no MuxBroker there, see rawMuxPeer).
+func newMuxPairRaw(x *vs.Exec, rawSide byte) *muxPair {
 	a, b := vnet.NewPair(x.Domain("host"), x.Domain("plugin"))
 	m := &muxPair{}
 	ready := make(chan struct{})
@@ -39,6 +45,12 @@ func newMuxPair(x *vs.Exec) *muxPair {
 			panic(err)
 		}
 		m.ps = s
+		if rawSide == 'p' {
+			m.raw = newRawMuxPeer(x, s, "plugin")
+			close(ready)
+			m.raw.acceptLoop()
+			return
+		}
 		m.pb = plugin.VNewMuxBroker(s)
 		close(ready)
 		m.pb.Run()
@@ -48,10 +60,128 @@ func newMuxPair(x *vs.Exec) *muxPair {
 		panic(err)
 	}
 	m.hs = s
-	m.hb = plugin.VNewMuxBroker(s)
 	<-ready
+	if rawSide == 'h' {
+		m.raw = newRawMuxPeer(x, s, "host")
+		x.Go("host", m.raw.acceptLoop)
+		return m
+	}
+	m.hb = plugin.VNewMuxBroker(s)
 	x.Go("host", func() { m.hb.Run() })
 	return m
+}
+
+// muxEnd is what a scenario needs from one end of the brokered connection.
+type muxEnd interface {
+	Accept(id uint32) (net.Conn, error)
+	Dial(id uint32) (net.Conn, error)
+}
+
+// rawMuxPeer is a hand-written peer of a MuxBroker (another language's implementation of the same wire protocol: a
+// yamux stream per connection, the id as 4 little-endian bytes, the same 4 bytes back as acknowledgement). It is legal
+// but unlike go-plugin's own: it writes the id and the acknowledgement in two pieces (1 + 3 bytes, 10 ms apart), so
+// they travel in separate yamux frames.
+type rawMuxPeer struct {
+	x    *vs.Exec
+	sess *yamux.Session
+	dom  string
+	mu   sync.Mutex
+	in   map[uint32]chan net.Conn
+}
+
+func newRawMuxPeer(x *vs.Exec, s *yamux.Session, dom string) *rawMuxPeer {
+	return &rawMuxPeer{x: x, sess: s, dom: dom, in: map[uint32]chan net.Conn{}}
+}
+
+func (r *rawMuxPeer) slot(id uint32) chan net.Conn {
+	r.mu.Lock()
+	defer r.mu.Unlock()
+	c, ok := r.in[id]
+	if !ok {
+		c = make(chan net.Conn, 4)
+		r.in[id] = c
+	}
+	return c
+}
+
+func (r *rawMuxPeer) inPieces(w io.Writer, v uint32) error {
+	var b [4]byte
+	binary.LittleEndian.PutUint32(b[:], v)
+	if _, err := w.Write(b[:1]); err != nil {
+		return err
+	}
+	r.x.Pause(10 * time.Millisecond)
+	_, err := w.Write(b[1:])
+	return err
+}
+
+func (r *rawMuxPeer) acceptLoop() {
+	for {
+		st, err := r.sess.Accept()
+		if err != nil {
+			return
+		}
+		r.x.Go(r.dom, func() {
+			var b [4]byte
+			if _, err := io.ReadFull(st, b[:]); err != nil {
+				st.Close()
+				return
+			}
+			id := binary.LittleEndian.Uint32(b[:])
+			if err := r.inPieces(st, id); err != nil {
+				st.Close()
+				return
+			}
+			r.slot(id) <- st
+		})
+	}
+}
+
+func (r *rawMuxPeer) Accept(id uint32) (net.Conn, error) {
+	t := time.NewTimer(5 * time.Second)
+	defer t.Stop()
+	select {
+	case c := <-r.slot(id):
+		return c, nil
+	case <-t.C:
+		return nil, fmt.Errorf("raw peer: nobody dialled id %d within 5 s", id)
+	}
+}
+
+func (r *rawMuxPeer) Dial(id uint32) (net.Conn, error) {
+	st, err := r.sess.Open()
+	if err != nil {
+		return nil, err
+	}
+	if err := r.inPieces(st, id); err != nil {
+		st.Close()
+		return nil, err
+	}
+	var b [4]byte
+	st.SetReadDeadline(time.Now().Add(6 * time.Second))
+	if _, err := io.ReadFull(st, b[:]); err != nil {
+		st.Close()
+		return nil, fmt.Errorf("raw peer: no acknowledgement for id %d: %v", id, err)
+	}
+	st.SetReadDeadline(time.Time{})
+	if ack := binary.LittleEndian.Uint32(b[:]); ack != id {
+		st.Close()
+		return nil, fmt.Errorf("raw peer: acknowledgement %d for id %d", ack, id)
+	}
+	return st, nil
+}
+
+// end returns the broker, or the hand-written peer, at side s.
+func (m *muxPair) end(s byte) (muxEnd, string) {
+	dom := "plugin"
+	if s == 'h' {
+		dom = "host"
+	}
+	if m.raw != nil && m.raw.dom == dom {
+		return m.raw, dom
+	}
+	b, _ := m.side(s)
+	return b, dom
 }
 
 func (m *muxPair) side(s byte) (*plugin.MuxBroker, string) {
@@ -78,7 +208,11 @@ func init() {
 		Name: "mux_route",
 		Body: func(x *vs.Exec, p explore.Params) {
 			x.Hold()
-			m := newMuxPair(x)
+			var rawSide byte
+			if p["raw"] != "" {
+				rawSide = p["raw"][0]
+			}
+			m := newMuxPairRaw(x, rawSide)
 			x.Release()
 			x.OnCleanup(func() { m.hs.Close(); m.ps.Close() })
 			d := newDone(x)
@@ -93,8 +227,8 @@ func init() {
 					id = uint32(v)
 				}
 				ds, order, gap, start := parsePat(pat)
-				db, ddom := m.side(ds)
-				ab, adom := m.side(other(ds))
+				db, ddom := m.end(ds)
+				ab, adom := m.end(other(ds))
 				nonce := uint32(0xabc00 + i)
 				d.goIn(adom, fmt.Sprintf("accept%d", slot), func() {
 					if start > 0 {
